@@ -87,3 +87,17 @@ Definition shape_of (cfg : config) : option (comp * positive * list comp * list 
                     (l_conns (level_of cfg lvc))
       then Some (c, lvc, pre, inn, post) else None
   end.
+
+(* ---------- a flat level in topological order, as a decision procedure (sound for [flat_wf],
+   Proofs/InlineLatestP.v) *)
+Fixpoint prefix_before (c : comp) (names : list comp) : list comp :=
+  match names with
+  | [] => []
+  | x :: r => if Pos.eqb x c then [] else x :: prefix_before c r
+  end.
+
+Definition flat_wfb (l : level) : bool :=
+  let names := map fst (l_order l) in
+  forallb is_dev (l_order l) && nodupb names && single_sourceb (l_conns l)
+  && forallb (fun k : conn => let '(u, _, c, _) := k in memb u names && memb c names && memb u (prefix_before c names)) (l_conns l)
+  && forallb (fun c : comp => negb (Pos.eqb c ext_id) && negb (Pos.eqb c exp_id)) names.
